@@ -128,3 +128,37 @@ def flush_rule(ctx: Ctx, rule: str, f: FuncInfo, listvar: str, elem_name: Option
                         c.func.attr in ('clear', 'pop', 'remove'):
                     ctx.ob(rule, f'`{listvar}` is only appended to: {text(c)}', f.loc(c), False,
                            'removal from the collected-errors list', key=f'{f.qualname}|shrink|{text(c)}')
+
+
+def cd_of(ctx: Ctx, f: FuncInfo, kinds: str = 'nTFx'):
+    cache = ctx.__dict__.setdefault('_cds', {})
+    k = (f.qualname, kinds)
+    if k not in cache:
+        cache[k] = cfg_of(ctx, f).control_dependence(kinds=kinds)
+    return cache[k]
+
+
+def guards(ctx: Ctx, f: FuncInfo, node: Node, kinds: str = 'nTFx') -> set[tuple[str, str]]:
+    """Transitive control-dependence conditions of ``node``: {(test text, 'T'|'F')} (if/while/case/for heads)."""
+    out = set()
+    for b, lab in cd_of(ctx, f, kinds)[node]:
+        if b.kind in ('if', 'while'):
+            out.add((text(b.ast.test), lab))
+        elif b.kind == 'for':
+            out.add(('for ' + text(b.ast.target) + ' in ' + text(b.ast.iter), lab))
+        elif b.kind == 'case':
+            out.add(('case ' + text(b.ast.pattern), lab))
+        elif b.kind == 'handler':
+            out.add(('except ' + text(b.ast.type), lab))
+    return out
+
+
+def call_nodes(g: CFG, pred) -> list[tuple[Node, ast.Call]]:
+    """(cfg node, call) for every call satisfying pred, evaluated at that node."""
+    out = []
+    for n in g.stmt_nodes():
+        for e in n.exprs:
+            for c in calls(e):
+                if pred(c):
+                    out.append((n, c))
+    return out
